@@ -94,7 +94,9 @@ func ksScenario(rt ring.Type, logN int, ch rk.Chain, bound int) engine.Scenario 
 		isNTT := c.Choose(2, "IsNTT") == 0
 		// receiver: 0 fresh at the input's level, 1 the input itself, 2 fresh one level BELOW the input,
 		// 3 stale and ABOVE the input (top level) — the operation runs at the minimum of the two levels
-		outMode := c.Choose(4, "out")
+		// 4 re-used at the input's level after a call in the OTHER domain (dirty metadata), 5 the same
+		// with one more component than needed
+		outMode := c.Choose(6, "out")
 		top := c.Bool("operand")
 		runKS(c, name, p, op, kp, level, isNTT, outMode, top)
 	}}
@@ -130,7 +132,7 @@ func knownScenario(rt ring.Type, logN int, ch rk.Chain, class string) engine.Sce
 		if op := c.ChooseFree(len(ksOps)+1, "op"); op < len(ksOps) {
 			runKS(c, name, p, op, kp, level, isNTT, 0, top)
 		} else {
-			runAuto(c, name, p, 0, p.GaloisElement(1), kp, level, isNTT, false, top)
+			runAuto(c, name, p, 0, p.GaloisElement(1), kp, level, isNTT, 0, top)
 		}
 	}}
 }
@@ -141,7 +143,7 @@ func runKS(c *engine.Chooser, name string, p rlwe.Parameters, op int, kp keyPara
 	{
 		c.Cover("operand", map[bool]string{false: "uniform", true: "top-of-range"}[top])
 		cfg := fmt.Sprintf("%s %s ctLevel=%d IsNTT=%v out=%d top=%v", ksOps[op], kp, level, isNTT, outMode, top)
-		c.Cover("out", []string{"fresh-same-level", "in-place", "fresh-below-input", "stale-above-input"}[outMode])
+		c.Cover("out", []string{"fresh-same-level", "in-place", "fresh-below-input", "stale-above-input", "dirty-metadata", "dirty-metadata-other-degree"}[outMode])
 		c.Note("%s", cfg)
 		c.Cover("op", ksOps[op])
 		c.Cover("IsNTT", fmt.Sprint(isNTT))
@@ -197,8 +199,10 @@ func runKS(c *engine.Chooser, name string, p rlwe.Parameters, op int, kp keyPara
 					want = rk.CenterAll(want, qAt(p, wantLevel))
 					bnd = ksBound(p, wantLevel, kp, beOf(p), bsOf(p))
 				case outMode == 3 && level < p.MaxLevel():
-					out = uniformCt(p, 1, p.MaxLevel(), isNTT, name, cfg, "stale")
+					out = dirtyReceiver(p, 1, p.MaxLevel(), isNTT, name, cfg)
 					aboveInput = true
+				case outMode >= 4: // (ApplyEvaluationKey documents degree 1 for the receiver: 5 behaves as 4)
+					out = dirtyReceiver(p, 1, level, isNTT, name, cfg)
 				case !inPlace:
 					out = rlwe.NewCiphertext(p, 1, level)
 				}
@@ -223,7 +227,14 @@ func runKS(c *engine.Chooser, name string, p rlwe.Parameters, op int, kp keyPara
 				}
 				want, sOut = rk.Phase(rt, rQ, &ct.Element, s), s
 				out = ct
-				if !inPlace {
+				switch {
+				case outMode == 3:
+					out = dirtyReceiver(p, 1, p.MaxLevel(), isNTT, name, cfg)
+				case outMode == 4:
+					out = dirtyReceiver(p, 1, level, isNTT, name, cfg)
+				case outMode == 5: // a receiver that held a degree-2 ciphertext before: Relinearize resizes it
+					out = dirtyReceiver(p, 2, p.MaxLevel(), isNTT, name, cfg)
+				case !inPlace:
 					out = rlwe.NewCiphertext(p, 1, p.MaxLevel()) // above the input: Relinearize resizes
 				}
 				in := *ct.MetaData
@@ -331,15 +342,19 @@ func autoScenario(rt ring.Type, logN int, ch rk.Chain, bound int) engine.Scenari
 		kp := chooseKeyParams(c, p, false)
 		level := kp.levelQ - c.Choose(kp.levelQ+1, "ctLevel")
 		isNTT := c.Choose(2, "IsNTT") == 0
-		inPlace := c.Bool("inPlace")
+		// receiver: 0 fresh above the input, 1 the input itself, 2 re-used at the input's level after a call in
+		// the other domain (dirty metadata, stale content), 3 the same above the input
+		outMode := c.Choose(4, "out")
 		top := c.Bool("operand")
-		runAuto(c, name, p, op, galEl, kp, level, isNTT, inPlace, top)
+		runAuto(c, name, p, op, galEl, kp, level, isNTT, outMode, top)
 	}}
 }
 
-func runAuto(c *engine.Chooser, name string, p rlwe.Parameters, op int, galEl uint64, kp keyParams, level int, isNTT, inPlace, top bool) {
+func runAuto(c *engine.Chooser, name string, p rlwe.Parameters, op int, galEl uint64, kp keyParams, level int, isNTT bool, outMode int, top bool) {
 	rt := p.RingType()
+	inPlace := outMode == 1
 	{
+		c.Cover("out", []string{"auto-fresh-above", "auto-in-place", "auto-dirty-metadata", "auto-dirty-above"}[outMode])
 		c.Cover("operand", map[bool]string{false: "uniform", true: "top-of-range"}[top])
 		cfg := fmt.Sprintf("%s galEl=%d %s ctLevel=%d IsNTT=%v inPlace=%v top=%v", autoOps[op], galEl, kp, level, isNTT, inPlace, top)
 		c.Note("%s", cfg)
@@ -384,7 +399,12 @@ func runAuto(c *engine.Chooser, name string, p rlwe.Parameters, op int, galEl ui
 			want = rk.CenterAll(rk.Auto(rt, rk.Phase(rt, rQ, &ct.Element, s), galEl), Q)
 			in := *ct.MetaData
 			out = ct
-			if !inPlace {
+			switch {
+			case outMode == 2:
+				out = dirtyReceiver(p, 1, level, isNTT, name, cfg)
+			case outMode == 3:
+				out = dirtyReceiver(p, 1, p.MaxLevel(), isNTT, name, cfg)
+			case !inPlace:
 				out = rlwe.NewCiphertext(p, 1, p.MaxLevel()) // above the input: the methods resize it
 			}
 			switch autoOps[op] {
@@ -415,7 +435,7 @@ func runAuto(c *engine.Chooser, name string, p rlwe.Parameters, op int, galEl ui
 					return err
 				}
 				if !inPlace {
-					out = rlwe.NewCiphertext(p, 1, level)
+					out.Resize(1, level) // ModDown writes into a caller-prepared receiver
 				}
 				out.IsNTT = isNTT
 				eval.ModDown(level, kp.levelP, ctQP, out)
